@@ -43,6 +43,9 @@ def setup(ctx):
   log = []
   nexus.addListenerByName('ConnectionUp', lambda e: log.append(('up', e.connection)))
   nexus.addListenerByName('ConnectionDown', lambda e: log.append(('down', e.connection)))
+  # an application that tidies up in its ConnectionDown handler by closing the connection itself (re-entrant use while the loss is being
+  # announced): the loss is still announced once
+  nexus.addListenerByName('ConnectionDown', lambda e: e.connection.close(), priority=-1)
   nexus.addListenerByName('PortStatus', lambda e: log.append(('port', e.connection, e.ofp.desc.port_no)))
   return core, of01, of, nexus, log
 
